@@ -23,6 +23,8 @@ func vsHarnessFns(ev *Evaler) {
 		"mark":  func(x any) { vsched.Logf("mark %s", vals.ToString(x)) },
 		"enter": func(x any) { gauge++; vsched.Logf("enter %s gauge=%d", vals.ToString(x), gauge) },
 		"leave": func(x any) { gauge--; vsched.Logf("leave %s", vals.ToString(x)) },
+		// slow is a command that cannot be interrupted: it passes two scheduling points and then logs a mark
+		"slow": func(x any) { vsched.Point("slow-1"); vsched.Point("slow-2"); vsched.Logf("mark %s", vals.ToString(x)) },
 	}).Ns())
 }
 
@@ -41,6 +43,12 @@ func c19Progs() []c19Prog {
 		{"peach-1", "range 4 | peach &num-workers=1 {|x| enter $x; try { mark $x } finally { leave $x } }", 4, 1, 1, false},
 		{"peach-2", "range 4 | peach &num-workers=2 {|x| enter $x; try { mark $x } finally { leave $x } }", 4, 2, 2, false},
 		{"peach-inf", "range 3 | peach {|x| enter $x; try { mark $x } finally { leave $x } }", 3, 3, 3, false},
+		// callbacks that cannot be interrupted once started: evaluation may only return after they have finished
+		{"peach-1-slow", "range 3 | peach &num-workers=1 {|x| slow $x }", 3, 1, 0, false},
+		{"peach-2-slow", "range 4 | peach &num-workers=2 {|x| slow $x }", 4, 2, 0, false},
+		{"peach-inf-slow", "range 3 | peach {|x| slow $x }", 3, 3, 0, false},
+		{"run-parallel-slow", "run-parallel { slow a } { slow b }", 2, 2, 0, false},
+		{"pipeline-slow", "slow a | slow b; mark c", 3, 2, 0, false},
 		{"sleep", "mark 1; sleep 1000; mark 2", 2, 1, 0, true},
 		{"functions", "fn g { mark b }; fn f { mark a; g }; f; f", 4, 1, 0, false},
 		{"try-finally", "try { mark 1; mark 2 } finally { mark f }; mark 3", 4, 1, 0, false},
@@ -54,7 +62,13 @@ func c19Progs() []c19Prog {
 	}
 }
 
-func c19Body(p c19Prog) func() {
+func c19Body(p c19Prog, late bool) func() {
+	spawn := vsched.Go
+	if late {
+		// the interrupter is a low-priority actor: the default schedule delivers the interrupt only when nothing
+		// else can run, and delivering it at any given point costs exactly one departure from the default
+		spawn = vsched.GoLow
+	}
 	return func() {
 		ev := NewEvaler()
 		vsHarnessFns(ev)
@@ -63,7 +77,7 @@ func c19Body(p c19Prog) func() {
 			panic(err)
 		}
 		ctx, cancel := context.WithCancel(context.Background())
-		vsched.Go(func() {
+		spawn(func() {
 			cancel()
 			vsched.Logf("interrupted")
 		})
@@ -96,6 +110,9 @@ func c19Oracle(p c19Prog) func(r *vsched.Result) (string, string) {
 		intAt, resAt, marks, after := -1, -1, 0, 0
 		res := ""
 		for i, l := range r.Log {
+			if resAt >= 0 && (strings.HasPrefix(l, "mark ") || strings.HasPrefix(l, "enter ") || strings.HasPrefix(l, "leave ")) {
+				return "code-still-running-after-eval-returned", fmt.Sprintf("program %q: %q logged after Eval had returned (%s): a goroutine started by the evaluation had not completed", p.code, l, res)
+			}
 			switch {
 			case l == "interrupted":
 				intAt = i
@@ -141,7 +158,8 @@ func c19Scenarios() []vshard.Scenario {
 	timeAfter = func(fm *Frame, d time.Duration) <-chan time.Time { return nil }
 	var scs []vshard.Scenario
 	for _, p := range c19Progs() {
-		scs = append(scs, vshard.Scenario{Name: p.name, Body: c19Body(p), Oracle: c19Oracle(p)})
+		scs = append(scs, vshard.Scenario{Name: p.name, Body: c19Body(p, false), Oracle: c19Oracle(p)})
+		scs = append(scs, vshard.Scenario{Name: p.name + "/late", Body: c19Body(p, true), Oracle: c19Oracle(p)})
 	}
 	return scs
 }
@@ -156,7 +174,7 @@ func TestVerifC19(t *testing.T) {
 		return
 	}
 	vk.Run(t, "C19", "exploration", func(c *vk.Ctx) {
-		c.Rule(fmt.Sprintf("14 programs evaluated by the real Evaler with an interrupter goroutine whose only step is cancelling the Interrupts context; the scheduler places that step at every scheduling point (fault point = every synchronisation point) and explores every schedule with <=%d departures from the default goroutine; class = distinct (program, observation log, blocking profile)", cfg.Bound))
+		c.Rule(fmt.Sprintf("19 programs evaluated by the real Evaler with an interrupter goroutine whose only step is cancelling the Interrupts context, each in two scenarios: the interrupter as an ordinary goroutine (default: interrupt at the first moment the evaluation blocks) and as a low-priority actor (default: no interrupt until nothing else can run; an interrupt at any given scheduling point costs exactly one deviation, so bound b covers every interrupt position combined with b-1 further deviations); nothing may be logged by code of the evaluation after Eval has returned (five programs run commands that cannot be interrupted once started); the scheduler places the interrupt at every scheduling point (fault point = every synchronisation point) and explores every schedule with <=%d departures from the default goroutine; class = distinct (program, observation log, blocking profile)", cfg.Bound))
 		c.Assume("interrupt delivery is modelled as context cancellation (what the signal handler does); pkg/eval rewritten for the controlled scheduler; `sleep` uses a timer that never fires, so only the interrupt ends it")
 		vshard.Run(c, c19Scenarios(), cfg)
 	})
